@@ -123,3 +123,61 @@ Lemma w_load_future s t t' n :
   has_reserved (w_pool s) -> w_load_entities (w_dump_entities s) t = Some t' ->
   pgets n (w_pool t') = pgets n (w_pool s).
 Proof. intros H E; destruct (w_load_result s t t' H E) as [-> _]; reflexivity. Qed.
+
+(** ** The rebuilt entity index: the j-th alive ID is indexed at table 0, row (old length + j);
+    IDs the dump does not list keep the fresh entry. *)
+Lemma load_rows_index (pes : list ent) alive : forall t idx t' idx',
+  NoDup alive ->
+  Forall (fun i => exists g, @nth_error ent pes i = Some (i, g)) alive ->
+  load_rows pes alive t idx = Some (t', idx') ->
+  (forall j i, nth_error alive j = Some i -> nth_error idx' i = Some (Some 0, t_len t + j)) /\
+  (forall k, ~ In k alive -> nth_error idx' k = nth_error idx k).
+Proof.
+  induction alive as [|i rest IH]; intros t idx t' idx' Hnd HF; cbn [load_rows].
+  - intros E; injection E as <- <-; split; [intros [|j] i H; discriminate | reflexivity].
+  - destruct (Forall_inv HF) as [g Hg]; pose proof (Forall_inv_tail HF) as HF'.
+    rewrite Hg; cbn [fst].
+    destruct (Nat.ltb_spec i (length idx)) as [Hi|Hi]; [|discriminate].
+    pose proof (tbl_add_len t (i, g)) as Hlen; pose proof (tbl_add_row t (i, g)) as Hrow.
+    destruct (tbl_add t (i, g)) as [row t1]; cbn [fst snd] in Hlen, Hrow; subst row.
+    intros E.
+    assert (Hnd' : NoDup rest) by (apply NoDup_cons_iff in Hnd; tauto).
+    destruct (IH t1 _ t' idx' Hnd' HF' E) as [A B].
+    split.
+    + intros [|j] k Hk; cbn [nth_error] in Hk.
+      * injection Hk as <-.
+        rewrite B by (apply NoDup_cons_iff in Hnd; tauto).
+        rewrite nth_error_upd_eq by exact Hi; f_equal; f_equal; lia.
+      * rewrite (A j k Hk); f_equal; f_equal; lia.
+    + intros k Hk; rewrite B by (intros Hin; apply Hk; right; exact Hin).
+      apply nth_error_upd_neq; intros ->; apply Hk; left; reflexivity.
+Qed.
+
+Lemma w_load_index s t t' :
+  has_reserved (w_pool s) -> alive_ok s -> NoDup (alive_ids s) ->
+  w_load_entities (w_dump_entities s) t = Some t' ->
+  exists t0, nth_error (w_tables t) 0 = Some t0 /\
+    (forall j i, nth_error (alive_ids s) j = Some i ->
+                 nth_error (w_index t') i = Some (Some 0, t_len t0 + j)) /\
+    (forall k, k < length (pe (w_pool s)) -> ~ In k (alive_ids s) ->
+               nth_error (w_index t') k = Some (Some 0, 0)).
+Proof.
+  intros Hres Hok Hnd; unfold w_load_entities, w_dump_entities.
+  destruct (is_locked t); [discriminate|].
+  destruct (pool_load (w_pool t) (pool_dump (w_pool s))) as [p|] eqn:Hp; [|discriminate].
+  assert (Ep : p = w_pool s).
+  { unfold pool_load in Hp.
+    destruct (orb _ _); [discriminate|].
+    replace (Nat.ltb 0 (length (d_ents (pool_dump (w_pool s))))) with true in Hp
+      by (symmetry; apply Nat.ltb_lt; unfold pool_dump, has_reserved, reserved in *; cbn [d_ents]; lia).
+    injection Hp as <-; destruct (w_pool s); reflexivity. }
+  subst p.
+  destruct (nth_error (w_tables t) 0) as [t0|] eqn:Ht0; [|discriminate].
+  destruct (load_rows _ _ _ _) as [[t1 idx]|] eqn:Hr; [|discriminate].
+  intros E; injection E as <-.
+  apply load_rows_index in Hr; [|exact Hnd|exact Hok].
+  destruct Hr as [A B]; rewrite tbl_extend_len in A.
+  exists t0; split; [reflexivity|]; cbn; split; [exact A|].
+  intros k Hk Hn; rewrite (B k Hn).
+  apply nth_error_repeat; unfold pool_dump; cbn [d_ents]; exact Hk.
+Qed.
